@@ -325,7 +325,7 @@ HStart(h, c, kind, pay, md, dlus) ==
      /\ hnds' = Put(hnds, h, [c |-> c, id |-> r.id, kind |-> kind, nrecv |-> 0,
                               sent |-> <<>>, sres |-> <<>>, lastW |-> 0,
                               hdr |-> EmptyF, pendHdr |-> EmptyF, hdrPending |-> FALSE, hdrW |-> FALSE,
-                              hdrQ |-> FALSE, hdrQmd |-> EmptyF, hdrQby |-> FALSE, hsent |-> FALSE,
+                              hdrQ |-> FALSE, hdrQmd |-> EmptyF, hdrQby |-> FALSE, hsent |-> FALSE, hdrAlt |-> EmptyF, hdrAltOn |-> FALSE,
                               trl |-> EmptyF, ret |-> FALSE, rc |-> -1, rmsg |-> "", rndet |-> 0,
                               \* (a reset may have been read before the handler's goroutine logged its start)
                               rpay |-> "", trW |-> FALSE, rst |-> (kind # "unary" /\ Sin(r.id).rst),
@@ -392,7 +392,9 @@ HSendHdrRet(h, res) ==
   /\ G("md", res = "err" => hnds[h].hsent \/ hnds[h].hdrW \/ HCause(h))
   /\ HUpd(h, [hnds[h] EXCEPT !.hdrPending = FALSE, !.pendHdr = EmptyF, !.hsent = @ \/ res = "ok",
                              !.hdrQ = IF res = "err" /\ hnds[h].hdrQby THEN FALSE ELSE @,
-                             !.hdr = IF res = "ok" THEN Cat2(@, hnds[h].pendHdr) ELSE @])
+                             !.hdr = IF res = "ok" THEN Cat2(@, hnds[h].pendHdr) ELSE @,
+                             !.hdrAltOn = @ \/ res = "err",
+                             !.hdrAlt = IF res = "err" THEN Cat2(hnds[h].hdr, hnds[h].pendHdr) ELSE @])
 \* unary grpc.SendHeader only collects, and marks the headers as sent
 HSendHdrUnary(h, md, res) ==
   /\ h \in DOMAIN hnds /\ ~hnds[h].ret
@@ -429,6 +431,14 @@ StatusMatches(env, h) ==
          /\ env.msg = x.rmsg /\ env.ndet = x.rndet)
 
 RespHdrConst(env, x) == /\ env.h = 1 /\ env.meth = x.meth /\ env.src = x.dst /\ env.dst = x.src
+
+\* The headers a handler has set travel on its first response envelope - unless a Send of that handler failed before
+\* anything was written (its context was done for a cause: the caller has reset the stream, the connection or the
+\* deadline has ended it): that Send had taken the headers with it and what is still written afterwards goes without
+\* - and a SendHeader that failed the same way may have left its metadata behind for the next envelope
+HdrOnFirst(x, md) == \/ md = x.hdr
+                     \/ md = EmptyF /\ \E j \in DOMAIN x.sres : x.sres[j] = "err"
+                     \/ x.hdrAltOn /\ md = x.hdrAlt
 
 \* index of the next handler send that can appear on the wire
 NextSend(x) == CHOOSE j \in (x.lastW + 1)..Len(x.sent) :
@@ -491,13 +501,13 @@ ServerWrite(env) ==
                  /\ env.b = 1 /\ env.t = 0 /\ env.s = 0
                  /\ HasNextSend(x)
                  /\ G("pay", env.pay = x.sent[NextSend(x)])
-                 /\ G("wire", x.hdrW => md = EmptyF) /\ G("md", ~x.hdrW => md = x.hdr)
+                 /\ G("wire", x.hdrW => md = EmptyF) /\ G("md", ~x.hdrW => HdrOnFirst(x, md))
                  /\ hnds' = [hnds EXCEPT ![h].lastW = NextSend(x), ![h].hdrW = TRUE]
               \/ \* close
                  /\ env.t = 1 /\ env.b = 0
                  /\ x.ret /\ G("wire", ~HasNextSend(x))
                  /\ StatusMatches(env, h)
-                 /\ G("wire", x.hdrW => md = EmptyF) /\ G("md", ~x.hdrW => md = x.hdr)
+                 /\ G("wire", x.hdrW => md = EmptyF) /\ G("md", ~x.hdrW => HdrOnFirst(x, md))
                  /\ G("md", MdF(env.tmd) = x.trl)
                  /\ hnds' = [hnds EXCEPT ![h].trW = TRUE, ![h].hdrW = TRUE]
         /\ UNCHANGED sin
